@@ -167,6 +167,12 @@ func (b Service) VerifySessionV1TokenMessage(m *protosession.SessionToken, reqVe
 		return session.Object{}, err
 	}
 
+	// the cache is shared with object authentication which stores tokens after
+	// the signature check only, so the lifetime is checked on every request
+	if err := b.checkSessionTokenLifetime(sToken); err != nil {
+		return session.Object{}, err
+	}
+
 	if err := b.verifySessionTokenAgainstRequest(sToken, reqVerb, reqCnr, reqObj); err != nil {
 		return session.Object{}, err
 	}
@@ -198,15 +204,8 @@ func (b Service) decodeAndVerifySessionTokenCommon(m *protosession.SessionToken,
 		return token, fmt.Errorf("invalid session token: %w", err)
 	}
 
-	currentEpoch, err := b.nm.Epoch()
-	if err != nil {
-		return token, errors.New("can't fetch current epoch")
-	}
-	if token.ExpiredAt(currentEpoch) {
-		return token, apistatus.ErrSessionTokenExpired
-	}
-	if !token.ValidAt(currentEpoch) {
-		return token, fmt.Errorf("%s: token is invalid at %d epoch)", invalidRequestMessage, currentEpoch)
+	if err := b.checkSessionTokenLifetime(token); err != nil {
+		return token, err
 	}
 
 	body, err := iprotobuf.GetFirstBytesField(mb)
@@ -225,6 +224,20 @@ func (b Service) decodeAndVerifySessionTokenCommon(m *protosession.SessionToken,
 	}
 
 	return token, nil
+}
+
+func (b Service) checkSessionTokenLifetime(token session.Object) error {
+	currentEpoch, err := b.nm.Epoch()
+	if err != nil {
+		return errors.New("can't fetch current epoch")
+	}
+	if token.ExpiredAt(currentEpoch) {
+		return apistatus.ErrSessionTokenExpired
+	}
+	if !token.ValidAt(currentEpoch) {
+		return fmt.Errorf("%s: token is invalid at %d epoch)", invalidRequestMessage, currentEpoch)
+	}
+	return nil
 }
 
 func (b Service) verifySessionTokenAgainstRequest(token session.Object, reqVerb session.ObjectVerb, reqCnr cid.ID, reqObj oid.ID) error {
@@ -250,6 +263,12 @@ func (b Service) VerifySessionTokenMessage(mV2 *protosession.SessionTokenV2, req
 	})
 	if err != nil {
 		return sessionv2.Token{}, err
+	}
+
+	// same as for V1 tokens: object authentication caches tokens after the
+	// signature check only, the delegation chain rules are checked here
+	if err := sToken.Validate(b.r); err != nil {
+		return sessionv2.Token{}, fmt.Errorf("validate V2 session token: %w", err)
 	}
 
 	currentTime := b.chainTime.Now().Round(time.Second)
